@@ -66,6 +66,21 @@ def sort_functions_and_order(chk, jvh, rnd, quick):
         cases.append(c)
     obs = run_cases(jvh, cases)
     recs = [{"case": i, "kind": "eval", "ast": X.strip(EP.parse(txt, table)), "ctx": EL.ctx_of(inp), "res": EL.observed_value(obs[i])} for i, (txt, inp) in enumerate(items)]
+    # the sort functions over several records of one run, with keys that look at the enclosing record (^) and at variables: the same list
+    # under another key table is another order
+    mitems = []
+    for i in range(10 if quick else 400):
+        names = rnd.sample(["ann", "bob", "cy", "di", "ed"], rnd.choice([3, 4, 5]))
+        inputs = []
+        for j in range(rnd.choice([2, 3, 4])):
+            ranks = list(range(len(names)))
+            rnd.shuffle(ranks)
+            inputs.append(("obj", [(X.cps("names"), ("arr", [("str", X.cps(n)) for n in names])),
+                                   (X.cps("rank"), ("obj", [(X.cps(n), ("num", str(r % 3))) for n, r in zip(names, ranks)])), (X.cps("w"), ("num", str(j)))]))
+        mitems.append((rnd.choice(['(sort_by .names (get ^.rank .))', '(sort_by .names (set "t" ^.rank (get :t .)))', '(keys (sort_by_values .rank))',
+                                   '(sort_by_values_by .rank (+ . ^.w))', '(map (sort_by .names (get ^.rank .)) (concat . "!"))']), inputs))
+    mrecs, mdescs, mruns = EL.multi_eval_records(jvh, table, mitems, len(recs))
+    recs += mrecs
     flags, res = run_trace_spec("Trace_Expr", recs, "c07e", nproc=4 if quick else 14)
     skipped = {c for k, c, w in flags if k == "SKIP"}
     chk.traces += len(recs) - len(skipped)
@@ -73,6 +88,12 @@ def sort_functions_and_order(chk, jvh, rnd, quick):
     chk.notes["order_pairs_and_sort_function_cases"] = len(recs) - len(skipped)
     for kind, case, what in flags:
         if kind == "SKIP":
+            continue
+        if case >= len(items):
+            d = mdescs[case - len(items)]
+            if kind != "MISMATCH":
+                raise ToolError("%s flag from Trace_Expr on %s: %s" % (kind, d["expression"], what))
+            chk.violation("C07 %s, record %d of %s: %s; %s" % (d["expression"], d["record"], d["inputs"], d["stdout"].strip()[:200], what[:200]), {"recipe": d, "flag": what})
             continue
         txt, inp = items[case]
         if kind == "MISMATCH":
